@@ -1,62 +1,37 @@
 package main
 
 import (
+	"encoding/json"
 	"fmt"
 	"os"
-	"sync"
 
 	"git.sr.ht/~rockorager/vaxis"
 
+	"verif/internal/evp"
 	"verif/internal/harness"
-	"verif/internal/refterm"
-	"verif/internal/vxh"
 )
 
-func one(i int) bool {
-	caps := refterm.CapsFromMask(0x1ffff)
-	sess, err := vxh.Start(80, 27, caps, vaxis.Options{}, nil)
+func main() {
+	b, _ := os.ReadFile(os.Args[1])
+	var d struct {
+		Violation struct {
+			Case []struct {
+				Bytes string `json:"bytes"`
+			} `json:"case"`
+		} `json:"violation"`
+	}
+	json.Unmarshal(b, &d)
+	p, err := evp.New(0, vaxis.Options{})
 	if err != nil {
 		panic(err)
 	}
-	if _, ok := sess.Sync(); !ok {
-		fmt.Println("startup sync fail")
-		os.WriteFile("/tmp/dbg-stacks.txt", []byte(harness.AllStacks()), 0o644)
-		return false
+	for _, e := range d.Violation.Case {
+		evs, ok := p.Decode([][]byte{[]byte(e.Bytes)})
+		if !ok {
+			fmt.Printf("STUCK at %q evs=%#v\n", e.Bytes, evs)
+			fmt.Println(harness.AllStacks())
+			return
+		}
 	}
-	sess.Vx.Render()
-	sess.Con.SetSize(5, 5)
-	evs, ok := sess.Sync()
-	if !ok {
-		fmt.Println("sync fail")
-		return false
-	}
-	sess.Vx.Render()
-	w, h := sess.Vx.Window().Size()
-	if w != 5 || h != 5 {
-		fmt.Printf("iter %d: window %dx%d evs=%#v\n", i, w, h, evs)
-		return false
-	}
-	sess.Close()
-	return true
-}
-
-func main() {
-	var wg sync.WaitGroup
-	bad := 0
-	var mu sync.Mutex
-	for g := 0; g < 32; g++ {
-		wg.Add(1)
-		go func(g int) {
-			defer wg.Done()
-			for i := 0; i < 200; i++ {
-				if !one(g*1000 + i) {
-					mu.Lock()
-					bad++
-					mu.Unlock()
-				}
-			}
-		}(g)
-	}
-	wg.Wait()
-	fmt.Println("bad:", bad)
+	fmt.Println("all ok")
 }
